@@ -1,6 +1,7 @@
 import PqV.Lemmas.Plain
 import PqV.Lemmas.Varint
 import PqV.Gen.SkipDef
+import PqV.Lemmas.KPlain
 /-!
 # C01 — write → read round trip under every write option
 
@@ -118,5 +119,41 @@ theorem pages_concat {α} (xs : List α) (k : Nat) : xs.take k ++ xs.drop k = xs
 /-! ### non-vacuity -/
 example : skipLen 1000 = 7 ∧ skipLen 10 = 6 ∧ skipLen 20000 = 8 := by decide
 example : blockLen 20000 = 8 := by rw [← skip_matches_block]; decide
+
+
+section writerBlock
+open PqV.Spec PqV.Impl
+
+/-- **the level block the writer emits for a column with nulls decodes to the not-null bits**: the
+    model of `make_definitions` (run header `len(out) << 1 | 1`, then `convert`'s boolean packing
+    `writerPackBools`, tied to the real code by the `pack_bools` correspondence stream) is one
+    well-formed bit-packed run of the bits padded with zeros, so the specification reader returns the
+    bits and continues right behind the block — for every number of rows, incl. multiples of 8 where
+    the writer appends a whole padding byte. -/
+theorem writer_level_block_decodes (bits tail : List Nat) (hb : ∀ v ∈ bits, v < 2)
+    (hlen : (uvarintEnc ((writerPackBools bits).length * 2 + 1) ++ writerPackBools bits).length < 2 ^ 32) :
+    levelsV1 1 bits.length
+      (leBytes 4 (uvarintEnc ((writerPackBools bits).length * 2 + 1) ++ writerPackBools bits).length
+        ++ (uvarintEnc ((writerPackBools bits).length * 2 + 1) ++ writerPackBools bits) ++ tail) = some (bits, tail) := by
+  set pad := List.replicate (8 - bits.length % 8) 0 with hpad
+  have hP8 : (bits ++ pad).length % 8 = 0 := by simp [hpad]; omega
+  have hPb : ∀ v ∈ bits ++ pad, v < 2 := by
+    intro v hv
+    rcases List.mem_append.mp hv with h | h
+    · exact hb v h
+    · rw [hpad, List.mem_replicate] at h; omega
+  have hw : writerPackBools bits = packLE 1 (bits ++ pad) := writerPackBools_eq bits hb
+  have hl : (writerPackBools bits).length = (bits ++ pad).length / 8 := by
+    rw [hw, packLE_length]; omega
+  have hbody : uvarintEnc ((writerPackBools bits).length * 2 + 1) ++ writerPackBools bits
+      = encodeRuns 1 [Run.bp (bits ++ pad)] := by
+    rw [hl, hw]
+    simp only [encodeRuns, List.flatMap_cons, List.flatMap_nil, List.append_nil, encodeRun]
+  rw [hbody] at hlen ⊢
+  exact nullable_block_decodes bits pad hPb hP8 tail hlen
+
+example : writerPackBools [1, 0, 1, 1, 0, 0, 0, 1] = [141, 0] := by decide
+
+end writerBlock
 
 end PqV.Props.C01
